@@ -184,6 +184,8 @@ pub struct CodegenContext {
 
     segments: IndexMap<Identifier, Segment>,
     current_segment: Option<Identifier>,
+    /// The segment every pass starts in (the automatically created default segment, if any)
+    initial_segment: Option<Identifier>,
     banks: IndexMap<Identifier, BankOptions>,
 
     functions: FunctionMap,
@@ -234,6 +236,7 @@ impl CodegenContext {
             pass_idx: 0,
             segments: IndexMap::new(),
             current_segment: None,
+            initial_segment: None,
             banks: IndexMap::new(),
             functions: HashMap::new(),
             symbols: SymbolTable::default(),
@@ -330,6 +333,8 @@ impl CodegenContext {
 
         log::trace!("\n* NEXT PASS ({}) *", self.pass_idx);
         self.segments.values_mut().for_each(|s| s.reset());
+        // A `.segment` without a block stays active until the end of the pass, but not into the next pass
+        self.current_segment = self.initial_segment.clone();
         self.test_elements.clear();
         self.source_map.clear();
     }
@@ -1397,6 +1402,7 @@ pub fn codegen(
             ctx.segments
                 .insert("default".into(), Segment::new(seg_opts));
             ctx.current_segment = Some("default".into());
+            ctx.initial_segment = ctx.current_segment.clone();
         } else {
             // There were segments, so we have emitted something.
 
